@@ -55,7 +55,23 @@ def setup_defs():
     if not SETUPS:
         SETUPS["rbac"] = dict(model=_read("rbac_model.conf"), policy=_read("rbac_policy.csv"), dom=False)
         SETUPS["dom"] = dict(model=_read("rbac_with_domains_model.conf"), policy=_read("rbac_with_domains_policy.csv"), dom=True)
+        # a role-name matching function is registered: reading calls then CREATE role objects for names seen for the first time
+        SETUPS["pattern"] = dict(model=_read("rbac_model.conf"), policy="p, engineers, data1, read\np, staff, data2, read\ng, dept/eng/*, engineers\ng, engineers, staff\n", dom=False, matchfn=True)
     return SETUPS
+
+
+_SCHED = [None]
+
+
+def _pattern_fn(key, pat):
+    """the registered matching function (key_match) with a scheduling point inside: a reading call can be pre-empted while
+    the role manager is looking a name up"""
+    sc = _SCHED[0]
+    if sc is not None and sc.me() is not None:
+        sc.yield_(("in", "matchfn"))
+    from casbin import util
+
+    return util.key_match(key, pat)
 
 
 def make_adapter(casbin, text):
@@ -105,6 +121,8 @@ def build(kind, synced):
     m = casbin.Enforcer.new_model(text=d["model"])
     a = make_adapter(casbin, d["policy"])
     e = casbin.SyncedEnforcer(m, a) if synced else casbin.Enforcer(m, a)
+    if d.get("matchfn"):
+        e.add_named_matching_func("g", _pattern_fn)
     return e
 
 
@@ -292,10 +310,14 @@ def _autoload_once(e, failing):
     ad = e.get_adapter() if not hasattr(e, "_e") else e._e.get_adapter()
     orig_load = ad.load_policy
     if failing:
+        import threading
+
+        owner = threading.get_ident()
 
         def boom(model):
             orig_load(model)
-            raise IOError("adapter failure during the reload")
+            if threading.get_ident() == owner:  # the adapter fails for THIS reload only, not for a load_policy another thread makes meanwhile
+                raise IOError("adapter failure during the reload")
 
         ad.load_policy = boom
     try:
@@ -580,6 +602,7 @@ class ConcRun:
         import casbin.util.rwlock as rwmod  # noqa
 
         self.sc = S.Sched()
+        _SCHED[0] = self.sc
         undo = S.install(rwmod, self.sc)
         try:
             self.se = build(kind, True)
@@ -652,6 +675,7 @@ class ConcRun:
         return self.sc.ctl[tid].state[0]
 
     def close(self):
+        _SCHED[0] = None
         self.sc.abort()
 
 
@@ -1009,7 +1033,7 @@ def _plain(program):
 
 def lin_check(res, casbin, rng, n_programs, bound, n_random, max_execs, extra_programs=(), bad_rows=frozenset()):
     names = [n for n in public_methods(casbin) if n not in EXEMPT and hasattr(casbin.Enforcer, n)]
-    programs = [("rbac", p) for p in extra_programs]
+    programs = [p if isinstance(p, tuple) else ("rbac", p) for p in extra_programs]
     while len(programs) < n_programs:
         kind = "dom" if rng.random() < 0.3 else "rbac"
         p = gen_program(casbin, rng, names, kind)
@@ -1066,6 +1090,16 @@ F12_PROGRAMS = [
 ]
 
 
+_ENG = "dept/eng/alice"
+PATTERN_PROGRAMS = [
+    ("pattern", [[("enforce", [_ENG, "data1", "read"], {})], [("enforce", [_ENG, "data1", "read"], {})]]),
+    ("pattern", [[("enforce", [_ENG, "data2", "read"], {})], [("get_implicit_roles_for_user", [_ENG], {})]]),
+    ("pattern", [[("has_role_for_user", [_ENG, "engineers"], {})], [("enforce", [_ENG, "data1", "read"], {}), ("enforce", ["dept/eng/bob", "data1", "read"], {})]]),
+    ("pattern", [[("add_role_for_user", ["dept/ops/*", "staff"], {})], [("enforce", [_ENG, "data2", "read"], {})], [("enforce", ["dept/ops/carol", "data2", "read"], {})]]),
+    ("pattern", [[("delete_role_for_user", ["dept/eng/*", "engineers"], {})], [("enforce", [_ENG, "data1", "read"], {})], [("get_roles_for_user", [_ENG], {})]]),
+]
+
+
 # ------------------------------------------------------------------ entry points
 
 
@@ -1094,7 +1128,7 @@ def run(ctx):
         seq_equiv(res, casbin, rng, 150 if q else 1500, 12)
         whitebox(res, casbin, rows, cls, rng)
         blackbox(res, casbin, cls, rng)
-        lin_check(res, casbin, rng, 160 if q else 700, 2 if q else 3, 12 if q else 40, 400 if q else 2000, extra_programs=F12_PROGRAMS, bad_rows=bad_rows)
+        lin_check(res, casbin, rng, 160 if q else 700, 2 if q else 3, 12 if q else 40, 400 if q else 2000, extra_programs=F12_PROGRAMS + PATTERN_PROGRAMS, bad_rows=bad_rows)
     res.rule = (
         "purity observation of every reading callee on 2 sample enforcers; sequential histories (every public method alone + random histories of 12 calls "
         "over the whole API, two model shapes) through SyncedEnforcer and Enforcer; white-box lock/argument/return spies and black-box blocking "
